@@ -38,8 +38,7 @@ def cases(tier, seed):
         c["delay"] = {"mode": "choice", "arity": 3}
         out.append((sc + "/shipped", c))
     # (2) adversaries
-    adv_base = [x for k, x in enumerate(base)
-                if (tier == "thorough" and k % 6 == 0) or k % 7 == 0]
+    adv_base = common.thin(base, 6 if tier == "thorough" else 7)
     for sc, c in adv_base:
         for alg in ({"kind": "advqueue", "budget": 1},
                     {"kind": "advbatch", "p": 2, "min": 1, "budget": 1},
@@ -70,7 +69,7 @@ def run(rep, tier, seed):
     if tier != "thorough":
         cs2 = []
         for k, (sc, c) in enumerate(cs):
-            if c.get("delay") and k % 16:
+            if c.get("delay") and not common.keep(k, 16):
                 c = dict(c)
                 c.pop("delay")
             cs2.append((sc, c))
